@@ -31,14 +31,17 @@ RULE = (
     "incl. cycles that do not pass through the opened snapshot, VMDK and VHDX parents naming themselves), decompression "
     "bombs (QCOW2 compressed clusters and VMDK grains expanding >= 1000x, read at every in-cluster alignment; gzip "
     "bombs behind vmtar), hostile text (deeply nested key-safe lists, giant VMX/keystore lines, deep dotted keystore "
-    "names). Each case = open + reads of <= 64 KiB at {0, middle, end-64 KiB} + metadata access; any exception is "
+    "names; every text grammar fed one token repeated 20 000 and 80 000 characters long), and well-formed almost "
+    "empty images with 64 MiB..1 GiB allocation units read 512 bytes at a time. Each case = open + reads of <= 64 KiB at {0, middle, end-64 KiB} + metadata access; any exception is "
     "acceptable. 'Never loops forever' is restated as bounded progress: line events in repository/cstruct/util code <= "
     "min(2.5e5 + 100 x len(input) + 8 x len(request), 3e7) (the callback aborts the case and records the stack), traced "
     "peak memory <= 64 MiB + 64 x (len(input) + len(request)), and no inflate call without an output bound may produce "
-    "more than 2 MiB. distinct = (format, field or mutation class, value class)."
+    "more than 2 MiB. Work inside C code (regular expressions, zlib) is invisible to line events: it is bounded by "
+    "thread CPU time - 4x the text may cost at most 9x the CPU (and an absolute bound of 30 s + 25 us/byte on top of "
+    "2 us per counted line event). distinct = (format, field or mutation class, value class)."
 )
 ASSUMPTIONS = [
-    "loops inside C extensions are invisible to the step clock (covered only by the wall-clock watchdog -> inconclusive)",
+    "loops inside C extensions are invisible to the step clock; they are judged by thread CPU time (load-independent), and a call that never returns is left to the wall-clock watchdog -> inconclusive",
     "inputs are at most a few MiB; the budget formula is the harness's restatement of 'modest function of input and request size'",
     "held means: held on the cases enumerated",
 ]
